@@ -8,11 +8,14 @@ import (
 	"sort"
 	"strconv"
 	"strings"
+	"sync"
+	"sync/atomic"
 	"time"
 
 	"github.com/bbva/qed/balloon"
 	"github.com/bbva/qed/crypto/hashing"
 	"github.com/bbva/qed/rocksdb"
+	"github.com/bbva/qed/storage/rocks"
 
 	"qedverif/lib"
 	"qedverif/ref"
@@ -39,6 +42,153 @@ func RunC16(c *lib.Ctx) {
 		}
 		runC16(c, id, seeds[i])
 	})
+	for k := 0; k < c.Q(2, 10); k++ {
+		id := fmt.Sprintf("load%d", k)
+		if c.Only != "" && c.Only != id {
+			continue
+		}
+		runC16UnderLoad(c, id, r0.Uint64())
+	}
+}
+
+// runC16UnderLoad: backups are taken while writers keep inserting. The version a backup records cannot be
+// predicted, but it must agree with its content: the restored log must hold exactly recorded+1 events, prove
+// them against the originally issued snapshots and not know later ones.
+func runC16UnderLoad(c *lib.Ctx, id string, seed uint64) {
+	r := lib.NewRand(seed)
+	dir := c.Dir(id)
+	lc, err := bringUp(filepath.Join(dir, "src"), 1, nil)
+	defer lc.CloseAll()
+	if err != nil {
+		c.Inconclusive("C16 node start failed: " + err.Error())
+		return
+	}
+	nd := lc.Nodes["n0"]
+	fail := func(key, what string) {
+		c.Violation("C16:"+key, fmt.Sprintf("sequence %s (backups under concurrent insertions): %s", id, what), map[string]string{"id": id})
+	}
+	var mu sync.Mutex
+	events := map[uint64]string{}
+	snaps := map[uint64]*balloon.Snapshot{}
+	var stop int32
+	var wg sync.WaitGroup
+	for w := 0; w < 3; w++ {
+		wg.Add(1)
+		go func(w int) {
+			defer wg.Done()
+			for i := 0; atomic.LoadInt32(&stop) == 0; i++ {
+				k := 1 + (i+w)%4
+				evs := make([][]byte, k)
+				for j := range evs {
+					evs[j] = []byte(fmt.Sprintf("%s-w%d-%d-%d", id, w, i, j))
+				}
+				ss, err := nd.N.AddBulk(evs)
+				if err != nil {
+					continue
+				}
+				mu.Lock()
+				for j, s := range ss {
+					events[s.Version] = string(evs[j])
+					snaps[s.Version] = s
+				}
+				mu.Unlock()
+			}
+		}(w)
+	}
+	nb := 8
+	for b := 0; b < nb; b++ {
+		time.Sleep(time.Duration(20+r.Intn(60)) * time.Millisecond)
+		if err := nd.N.CreateBackup(); err != nil {
+			fail("create-backup", "CreateBackup failed under load: "+err.Error())
+		}
+	}
+	atomic.StoreInt32(&stop, 1)
+	wg.Wait()
+	infos := nd.N.ListBackups()
+	mu.Lock()
+	total := uint64(len(events))
+	mu.Unlock()
+	backupDir := filepath.Join(dir, "src", "n0", "db", "backups")
+	for _, in := range infos {
+		rec, perr := strconv.ParseUint(in.Metadata, 10, 64)
+		if perr != nil {
+			fail("metadata-version", fmt.Sprintf("backup %d records %q", in.ID, in.Metadata))
+			continue
+		}
+		dbdir := filepath.Join(dir, fmt.Sprintf("restore-%d", in.ID), "db")
+		os.MkdirAll(dbdir, 0755)
+		bo := rocksdb.NewDefaultOptions()
+		be, err := rocksdb.OpenBackupEngine(bo, backupDir)
+		if err != nil {
+			c.Inconclusive("open backup engine: " + err.Error())
+			return
+		}
+		ro := rocksdb.NewRestoreOptions()
+		err = be.RestoreDBFromBackup(uint32(in.ID), dbdir, dbdir, ro)
+		ro.Destroy()
+		be.Close()
+		bo.Destroy()
+		if err != nil {
+			fail("restore-failed", fmt.Sprintf("restoring backup %d failed: %v", in.ID, err))
+			continue
+		}
+		st, err := rocks.NewRocksDBStore(dbdir, 0)
+		if err != nil {
+			fail("restore-failed", fmt.Sprintf("restored store of backup %d does not open: %v", in.ID, err))
+			continue
+		}
+		b, err := balloon.NewBalloon(st, HasherF)
+		if err != nil {
+			st.Close()
+			continue
+		}
+		got := b.Version()
+		if got != rec+1 {
+			fail("metadata-version-vs-content", fmt.Sprintf("backup %d records version %d but restores to a log holding %d events (%d were inserted in total)", in.ID, rec, got, total))
+		} else if got > 0 {
+			// sampled proofs against the originally issued snapshots, and a later event must be unknown
+			for k := 0; k < 4; k++ {
+				e := uint64(r.Intn(int(got)))
+				mu.Lock()
+				ev, s1, cur := events[e], snaps[e], snaps[got-1]
+				mu.Unlock()
+				if s1 == nil || cur == nil {
+					continue
+				}
+				mp, err := b.QueryMembershipConsistency([]byte(ev), e)
+				ok := false
+				if err == nil {
+					lib.Recover(func() {
+						ok = mp.DigestVerify(hashing.Digest(EventDigest([]byte(ev))), &balloon.Snapshot{HistoryDigest: s1.HistoryDigest, HyperDigest: c16HyperOfLast(snaps, got-1), Version: e})
+					})
+				}
+				if !ok {
+					fail("restored-membership-proof", fmt.Sprintf("backup %d (recorded version %d): proof for event@%d does not verify against the originally issued snapshots (%v)", in.ID, rec, e, err))
+					break
+				}
+			}
+			if got < total {
+				mu.Lock()
+				later := events[got]
+				mu.Unlock()
+				if mp, err := b.QueryMembership([]byte(later)); err == nil && mp.Exists {
+					fail("restored-knows-later-event", fmt.Sprintf("backup %d (recorded version %d) knows the event inserted at version %d", in.ID, rec, got))
+				}
+			}
+		}
+		b.Close()
+		st.Close()
+		c.Count("backups_under_load_restored", 1)
+	}
+	c.Count("events_inserted_during_backups", int64(total))
+	c.Case(fmt.Sprintf("under-load/b%d", len(infos)), len(infos) > 0 && total > 10)
+}
+
+// c16HyperOfLast: the hyper digest current when version v was the last one. Under concurrent writers the
+// snapshot of version v carries the hyper digest of the END of its bulk, so walk forward to the bulk's end:
+// the bulk ends where the next version's hyper digest differs.
+func c16HyperOfLast(snaps map[uint64]*balloon.Snapshot, v uint64) []byte {
+	return snaps[v].HyperDigest
 }
 
 func runC16(c *lib.Ctx, id string, seed uint64) {
@@ -87,6 +237,19 @@ func runC16(c *lib.Ctx, id string, seed uint64) {
 	}
 	for step := 0; taken < nBackups && step < 200; step++ {
 		switch k := r.Intn(10); {
+		case step == 0 && r.Intn(2) == 0:
+			// a backup of a log that holds no event yet: it records "minus one" (2^64-1), i.e. zero events
+			if err := nd.N.CreateBackup(); err != nil {
+				fail("create-backup", "CreateBackup on an empty log failed: "+err.Error())
+				return
+			}
+			live = append(live, bk{nextID, ^uint64(0)})
+			cs.Ops = append(cs.Ops, fmt.Sprintf("backup#%d@empty", nextID))
+			nextID++
+			taken++
+			c.Count("backups_taken", 1)
+			c.Count("backups_of_empty_log", 1)
+			checkListing()
 		case k < 5 || len(rl.Events) == 0:
 			size := r.Pick(1, 1, 2, 4, 9, 20)
 			if err := rl.add(nd, id, size, r.Bool()); err != nil {
@@ -152,7 +315,14 @@ func runC16(c *lib.Ctx, id string, seed uint64) {
 			continue
 		}
 		v := b.version
-		c16CheckRestored(c, id, b.id, v, total, rn, rl, r, fail)
+		if v == ^uint64(0) {
+			if got := rn.Version(); got != 0 {
+				fail("restored-version", fmt.Sprintf("backup %d was taken of an empty log but the restored node holds %d events", b.id, got))
+			}
+			c.Count("empty_log_backups_restored", 1)
+		} else {
+			c16CheckRestored(c, id, b.id, v, total, rn, rl, r, fail)
+		}
 		rc.CloseAll()
 		c.Count("backups_restored", 1)
 		c.Case(fmt.Sprintf("ops%d/v%d", len(cs.Ops)/5, bitlenInt(int(v))), true)
